@@ -475,6 +475,49 @@ func c01Main(r *engine.Run) {
 	}) {
 		r.Bound(fmt.Sprintf("UnionMany: every triple (and pair) over a %d-operand alphabet", s))
 	}
+	// chained operations: the library's own results (ring starts, retained collinear vertices,
+	// mixed-dimension collections, rounded crossing points) fed back as operands against every
+	// member of a reduced alphabet; kept when the joint arrangement has the property's clearance
+	{
+		var chainA []Operand
+		step := n/13 + 1
+		if r.Thorough() {
+			step = n/29 + 1
+		}
+		for i := 0; i < n; i += step {
+			chainA = append(chainA, ops[i])
+		}
+		chainA = append(chainA, hf[4], hf[12])
+		ca := len(chainA)
+		var fed atomic.Int64
+		if r.Parallel(ca*ca, func(k int) {
+			i, j := k/ca, k%ca
+			if i >= j {
+				return
+			}
+			for _, o := range c01Ops[:8:8] {
+				if o.swap && o.name != "Difference(b,a)" {
+					continue
+				}
+				var r1 geom.Geometry
+				var err error
+				x, y := chainA[i].G, chainA[j].G
+				if o.swap {
+					x, y = y, x
+				}
+				if pnc := engine.SafeCall(func() { r1, err = o.fn(x, y) }); pnc != nil || err != nil || r1.IsEmpty() {
+					continue // judged by the pair universe
+				}
+				op1 := mkOp(r1, "result")
+				fed.Add(1)
+				for _, c := range chainA {
+					c01PairGP(r, op1, c, true)
+				}
+			}
+		}) {
+			r.Bound(fmt.Sprintf("chained: every non-empty result of the 5 set operations on pairs of a %d-operand alphabet fed back against every operand of it (%d intermediate results; joint arrangements below the clearance threshold dropped)", ca, fed.Load()))
+		}
+	}
 	if r.Thorough() {
 		// 4×4 lattice: a fixed stride of all pairs of the ≤4-vertex polygons, segments and paths
 		l4 := Lattice4(universe.Identity)
